@@ -39,7 +39,8 @@ def run(rep: Report, ctx: Any) -> str:
                       "the same text under the same conditions")
     rep.rule("R02.2", "both directions exist for every non-identity kind: if the Python type differs from the JSON type the template "
                       "defines construct and transform; construct_function is routed through construct_template; list and union call "
-                      "construct / transform of the template imported for their inner property, with that inner property")
+                      "construct / transform of the template imported for their inner property, with that inner property (the template "
+                      "imported where the call is made, or handed on together with the member in a sequence made from the members)")
     rep.rule("R02.3", "plain JSON out: in every text the transform macro of a non-identity kind can print (every combination of its "
                       "conditions; set variables and blocks, macros of this or an imported template, call blocks followed) the destination "
                       "is assigned something else than UNSET, and no such assignment has the bare source as its value unless a later "
@@ -416,12 +417,15 @@ def run(rep: Report, ctx: Any) -> str:
     rep.rule("R02.6", "a composed (allOf) child never mutates the property objects it inherits: the parent's own decode/encode is unchanged")
     check_no_parent_mutation(rep, ctx, "R02.6")
     rep.rule("R02.7", "union decode falls through: a member that has a type check is decoded in terminal form (no try/except around its "
-                      "construct) only when it is the last member and no pass-through member was seen before it")
+                      "construct) only when it is the last member and no pass-through member was seen before it (seen: a namespace flag set "
+                      "where a member's template has no construct, or the selection of exactly those members being empty)")
     _union_fallthrough(rep, jx)
     rep.rule("R02.8", "union members are tried in document order: the list given to UnionProperty(inner_properties=...) is assembled in single "
                       "passes (no second pass over the same sequence, i.e. no partition), never sorted / made a set, and arrives the right "
                       "way round (reversed / [::-1] / taking from the end / putting in front cancel in pairs; a work list is refilled at "
-                      "the end it is consumed at); the decode loop iterates property.inner_properties itself")
+                      "the end it is consumed at); the decode loop iterates property.inner_properties itself, or a selection of it in the same "
+                      "order that holds exactly the members whose template has a construct (a call-block parameter that the called macro "
+                      "fills from a namespace list, extended at its end in one loop over the whole member list)")
     _member_order(rep, ix)
     rep.rule("R02.9", "whatever collects a property's imports for a model module collects its lazy imports on the same paths (the model "
                       "classes that the emitted decode/encode code names are imported lazily); a kind that forwards get_imports to its inner "
@@ -429,7 +433,8 @@ def run(rep: Report, ctx: Any) -> str:
     _imports_parity(rep, ix)
     rep.rule("R02.11", "the parsed document is not rewritten behind the builders' back: every in-place write to a field of a document object "
                        "(a class of the package that defines Schema; receiver found by its abstract type, wherever the write is made: "
-                       "attribute store, mutating call on the field or an alias of it, setattr, the result of a pydantic validator) is one "
+                       "attribute store, mutating call on the field or an alias of it, setattr - the field being every text the name "
+                       "argument can be, by its abstract value -, the result of a pydantic validator) is one "
                        "of the writes frozen in DOCUMENT_WRITERS - the fields that say which values are valid (enum, const, properties, "
                        "required, items, ...) reach the builders as the document wrote them")
     _document_frame(rep, ix, it)
@@ -439,10 +444,18 @@ def run(rep: Report, ctx: Any) -> str:
                        "(module name, class name and the text between them), however either text is put together (f-string, +, local, "
                        "property)")
     _own_import_named_in_full(rep, ix, it)
+    rep.rule("R02.13", "no value of the document is paired away: where the property builders (parser/properties) walk two or more sequences in "
+                       "step - zip(...) without strict=True, map(f, a, b) - and one of them holds document values, the walk ends with the "
+                       "shortest, so the sequences are of one origin (one made from the other: a slice, a comprehension without filter, "
+                       "keys()/values() of one dict, range(len(..))) or their lengths are compared on every path to the walk; otherwise the "
+                       "values beyond the shorter sequence get no member / property and a valid instance that uses them is not decoded")
+    _no_silent_pairing(rep, ix, it)
     rep.not_decided += ["that construct(transform(x)) == x on values (isoparse(x.isoformat()), which of two overlapping union members accepts a "
                         "value, recursion)", "a union member without a type check (const) is decoded in terminal form wherever it stands",
                         "the direction of a loop that walks a member list by a computed index or position (taken to run forwards); in which order "
-                        "the parts of a union (anyOf, oneOf, type list) follow each other"]
+                        "the parts of a union (anyOf, oneOf, type list) follow each other",
+                        "sequences walked in step by index (for i, x in enumerate(a): b[i]) or cut by a slice / islice to another's length; "
+                        "a length comparison made by the caller of the function that pairs"]
     return LEVEL
 
 
@@ -570,6 +583,14 @@ def _document_frame(rep: Report, ix: Any, it: Any) -> None:
         for c in doc_classes(recv):
             found.setdefault((role, c.name, fld), []).append((where(f, at), value))
 
+    def field_names(nm: ast.AST | None) -> list[str]:
+        if isinstance(nm, ast.Constant) and isinstance(nm.value, str):
+            return [nm.value]
+        consts = getattr(it.node_av.get(id(nm)), "consts", None) if nm is not None else None
+        if consts and all(isinstance(c, str) for c in consts):
+            return sorted(consts)
+        return ["<computed>"]
+
     def fields_of(e: ast.AST | None, loc: Locals, depth: int = 0) -> list[tuple[ast.AST, str]]:
         """(document object, field) for every field of a document object that e may be: the field itself, an item of it, a local bound
         to it (directly, as one of a display that is unpacked / iterated, or on one branch of a conditional)"""
@@ -619,9 +640,11 @@ def _document_frame(rep: Report, ix: Any, it: Any) -> None:
             if cn in ("setattr", "__setattr__", "delattr", "__delattr__"):
                 args = x.args[1:] if cn.startswith("__") and isinstance(fn, ast.Attribute) and norm(fn.value) == "object" else x.args
                 if len(args) >= (1 if "del" in cn else 2) and doc_classes(args[0]):
-                    nm = args[1] if len(args) > 1 else None
-                    note(f, x, args[0], nm.value if isinstance(nm, ast.Constant) and isinstance(nm.value, str) else "<computed>",
-                         "None" if len(args) > 2 and isinstance(args[2], ast.Constant) and args[2].value is None else "<set>")
+                    # which field: every text the name can be (a constant, or whatever reaches it - a local, a parameter fed by the
+                    # calls, an element of a table of names - when the abstract value knows all its values); otherwise <computed>
+                    val = "None" if len(args) > 2 and isinstance(args[2], ast.Constant) and args[2].value is None else "<set>"
+                    for fl in field_names(args[1] if len(args) > 1 else None):
+                        note(f, x, args[0], fl, val)
     # what a validator hands back is what the document holds afterwards: a model validator returns the object it was given (or a copy
     # with named fields replaced: those are written), a field validator the value it was given (otherwise it writes its fields)
     for v in validators:
@@ -761,6 +784,66 @@ def _own_import_named_in_full(rep: Report, ix: Any, it: Any) -> None:
     rep.floor("own_import_tests", n, 1)
 
 
+# ---- R02.13 --------------------------------------------------------------------------------------------------------------------
+def _no_silent_pairing(rep: Report, ix: Any, it: Any) -> None:
+    from ..domain import RAW, RAW_NONSTR, _deep_labels
+
+    cache: dict[str, Any] = {}
+    for f in ix.all_functions:
+        if ".parser.properties" not in f"{f.module.name}.":
+            continue
+        loc = Locals(f.node)
+
+        def origin(e: ast.AST | None, depth: int = 0, loc: Locals = loc) -> str:
+            """the sequence e has its length from"""
+            if e is None or depth > 6:
+                return "?"
+            if isinstance(e, ast.Name):
+                ds = loc.defs.get(e.id, [])
+                return origin(ds[0][2], depth + 1) if len(ds) == 1 and ds[0][0] in ("assign", "ann") and ds[0][2] is not None else e.id
+            if isinstance(e, ast.Subscript) and isinstance(e.slice, ast.Slice):
+                return origin(e.value, depth + 1)
+            if isinstance(e, (ast.ListComp, ast.GeneratorExp)) and len(e.generators) == 1 and not e.generators[0].ifs:
+                return origin(e.generators[0].iter, depth + 1)
+            if isinstance(e, ast.Call) and not e.keywords:
+                if isinstance(e.func, ast.Attribute) and e.func.attr in ("keys", "values", "items") and not e.args:
+                    return origin(e.func.value, depth + 1)
+                if isinstance(e.func, ast.Name) and e.func.id in ("list", "tuple", "sorted", "reversed", "enumerate", "iter", "len", "range", "cast") and e.args:
+                    return origin(e.args[-1] if e.func.id == "cast" else e.args[0], depth + 1) if len(e.args) == (2 if e.func.id == "cast" else 1) else norm(e)
+            return norm(e)
+
+        for c in _own(f.node):
+            if not (isinstance(c, ast.Call) and isinstance(c.func, ast.Name) and c.func.id in ("zip", "map")):
+                continue
+            seqs = c.args if c.func.id == "zip" else c.args[1:]
+            if len(seqs) < 2 or any(isinstance(a, ast.Starred) for a in seqs):
+                continue
+            if any(k.arg == "strict" and isinstance(k.value, ast.Constant) and k.value.value is True for k in c.keywords):
+                continue
+            if not any({RAW, RAW_NONSTR} & _deep_labels(it.node_av.get(id(y))) for a in seqs for y in ast.walk(a)):      # (what a sequence is made from counts)
+                continue
+            origins = {origin(a) for a in seqs}
+
+            def compares(n: object, origins: set[str] = origins) -> bool:
+                if not isinstance(n, (ast.If, ast.While, ast.Assert)):
+                    return False
+                for x in ast.walk(n.test):
+                    if isinstance(x, ast.Compare):
+                        lens = {origin(y.args[0]) for side in [x.left, *x.comparators] for y in ast.walk(side)
+                                if isinstance(y, ast.Call) and isinstance(y.func, ast.Name) and y.func.id == "len" and len(y.args) == 1}
+                        if origins <= lens:
+                            return True
+                return False
+
+            st = stmt_of(f.node, c)
+            tied = len(origins) == 1 or (st is not None and cfg_of(f, cache).is_dominated_by(st, compares))
+            rep.check(tied, "R02.13", f"{short(f)}::walked-in-step[{', '.join(sorted(role_anon(a, f.node) for a in seqs))}]",
+                      f"`{norm(c)[:120]}` ends with the shorter of sequences whose lengths nothing ties to each other, and one of them holds values "
+                      "of the document: what lies beyond the shorter one is dropped without a diagnostic (an enum value without a member, a "
+                      "property without ...), so an instance the schema allows is not decoded", where(f, c), lhs=sorted(origins),
+                      rhs="strict=True, one origin, or a comparison of the lengths on every path")
+
+
 # ---- R02.7 ---------------------------------------------------------------------------------------------------------------------
 def _union_fallthrough(rep: Report, jx: Any) -> None:
     ut = jx.templates.get("property_templates/union_property.py.jinja")
@@ -769,16 +852,40 @@ def _union_fallthrough(rep: Report, jx: Any) -> None:
     rep.require(cm, "union construct")
     udefs = _set_defs(ut)
     loc = f"{PKG}/templates/{ut.name}"
-    mloops = [f for f in cm.find_all(nodes.For) if "inner_properties" in expr_text(_inline(f.iter, udefs))]
+    # the loops over the union's members in construct and the macros of the template it calls: over property.inner_properties itself,
+    # or over a selection of it handed on in listed order (sa `_member_sel`); a loop whose iterable only mentions the members is one
+    # that is not understood.  The decode loops are those that call construct of the member's template.
+    mloops: list[tuple[nodes.Macro, nodes.For, Any]] = []
+    for m in _macro_region(ut, "construct"):
+        for f in m.find_all(nodes.For):
+            sel = _member_sel(ut, m, f.iter, udefs)
+            if sel is not None or "inner_properties" in expr_text(_inline(f.iter, udefs)):
+                mloops.append((m, f, sel))
     rep.require(mloops, "loop over the union's members in construct")
-    for f in mloops:
+    decode_loops: list[tuple[nodes.Macro, nodes.For, Any, bool, set[str]]] = []
+    for m, f, sel in mloops:
         t = expr_text(_inline(f.iter, udefs))
-        rep.check(t == "property.inner_properties" and f.test is None, "R02.8", "union_property.py.jinja::construct::member-loop",
-                  "the decode loop does not iterate the members as they are listed", where=f"{loc}:{f.lineno}", lhs=t, rhs="property.inner_properties")
-    ml = mloops[0]
-    member = f"{expr_text(ml.iter)}[*]"
-    aliases = {a for a, x in _inner_aliases(cm, udefs).items() if x == member}
-    rep.require(aliases, "import of the member's template in union construct")
+        roles = _loop_roles(f, sel if sel is not None else _WHOLE, udefs)      # (not understood: read as a loop over the members themselves)
+        decodes = roles is not None and any(isinstance(c.node, nodes.Getattr) and c.node.attr == "construct" and isinstance(c.node.node, nodes.Name) and
+                                            c.node.node.name in roles[1] for c in f.find_all(nodes.Call))
+        # every member that has a construct is decoded, in the order listed: the loop takes the members as they are listed, or (a
+        # selection) exactly those whose template has a construct
+        ok = sel is not None and not sel.disorder and f.test is None and roles is not None and \
+            (sel.whole or not decodes or _sel_is(sel, "<tpl>.construct", True))
+        rep.check(ok, "R02.8", "union_property.py.jinja::construct::member-loop",
+                  "the decode loop does not iterate the members as they are listed" + (f" ({sel.disorder})" if sel is not None and sel.disorder else ""),
+                  where=f"{loc}:{f.lineno}", lhs=t,
+                  rhs="property.inner_properties (or, in that order, exactly the members whose template has a construct)")
+        if decodes:
+            decode_loops.append((m, f, sel, ok, roles[1]))
+    rep.require(decode_loops, "a loop over the union's members that calls construct of the member's template (imported for it) in union construct")
+    n_dec = 0
+    for m, ml, sel, ok, aliases in decode_loops:
+        n_dec += _fallthrough_of(rep, ut, m, ml, ok, aliases, udefs, loc)
+    rep.floor("union_member_decodes", n_dec, 1)
+
+
+def _fallthrough_of(rep: Report, ut: Any, m: nodes.Macro, ml: nodes.For, loop_ok: bool, aliases: set[str], udefs: dict, loc: str) -> int:
     frs = list(tplq.frags(ml.body))
 
     def is_decode(fr: tplq.Frag) -> bool:
@@ -788,7 +895,8 @@ def _union_fallthrough(rep: Report, jx: Any) -> None:
     def whenever(a: tplq.Frag, b: tplq.Frag) -> bool:
         return a.guards == b.guards[:len(a.guards)]   # a is emitted whenever b is
 
-    # the pass-through flag: the namespace attribute set to true where the member's template has no construct
+    # the pass-through flag, false only when no member without construct was met: a namespace attribute set to true where the member's
+    # template has no construct, or a selection of the members that takes in exactly those without construct (empty = false)
     flags = set()
     for s in _stmt_frags(ml.body, (nodes.Assign,)):
         a = s.node
@@ -796,6 +904,13 @@ def _union_fallthrough(rep: Report, jx: Any) -> None:
             envs = list(_emitted_envs(s, _strip_parens))
             if envs and all(any(env.get(f"{al}.construct") is False for al in aliases) for env in envs):
                 flags.add(f"{a.target.name}.{a.target.attr}")
+    for cb in m.find_all(nodes.CallBlock):
+        for prm in cb.args:
+            other = _member_sel(ut, m, nodes.Name(prm.name, "load"), udefs)
+            if other is not None and not other.whole and _sel_is(other, "<tpl>.construct", False):
+                flags.add(prm.name)
+    if not flags and not loop_ok:
+        return sum(is_decode(d) for d in frs)     # (the loop's members are already reported: which of them fall through presupposes them)
     rep.require(len(flags) == 1, "the flag recording a member without construct (pass-through) in union construct")
     flag = next(iter(flags))
     n_dec = 0
@@ -817,7 +932,133 @@ def _union_fallthrough(rep: Report, jx: Any) -> None:
                   f"a member is decoded without try/except although another alternative may remain (e.g. {bad}): a value of a pass-through "
                   "member listed before it makes from_dict raise instead of returning the value", where=f"{loc}:{d.line}",
                   lhs=[g for g, _ in d.guards], rhs="no type check, or (loop.last and no pass-through member seen)")
-    rep.floor("union_member_decodes", n_dec, 1)
+    return n_dec
+
+
+# ---- the members of a container, and the sequences made from them ----------------------------------------------------------------
+class _Sel(NamedTuple):
+    """a sequence that holds members of `property.inner_properties`, each at most once, in the order they are listed"""
+    alts: tuple           # ((guards, guard nodes), ...): a member is taken in when one of them holds; () for the whole list
+    shape: tuple          # what an element is: ("member",) the member itself, else a tuple with "member" / "template" / "?" per position
+    member: str = ""      # how the member reads inside the guards (the variable of the loop that selects)
+    aliases: frozenset = frozenset()      # how the template imported for the member reads there
+    disorder: str = ""    # (not empty: made from the members, but not each at most once in the order listed - why)
+
+    @property
+    def whole(self) -> bool:
+        return not self.alts
+
+
+_WHOLE = _Sel((), ("member",))
+
+
+def _member_sel(ti: Any, m: nodes.Macro, e: Any, defs: dict[str, list[nodes.Node]], depth: int = 0) -> _Sel | None:
+    """What the expression `e`, read in macro m, holds of the container's members - None when that is not understood.  Understood:
+    `property.inner_properties` itself (also through a set variable); a parameter of a `{% call(...) M(...) %}` block: what M hands
+    to `caller(...)` at that position; there, an attribute of a namespace that starts as an empty list and is only ever extended at
+    its end (`ns.a = ns.a + [x]`) inside one loop over the whole member list (a single pass keeps the order), x being the member or
+    a tuple of the member and the template imported for it: the members for which one of the conditions around those statements
+    holds."""
+    e = _inline(e, defs)
+    if expr_text(e) == "property.inner_properties":
+        return _WHOLE
+    if depth > 2:
+        return None
+    if isinstance(e, nodes.Name):
+        for cb in m.find_all(nodes.CallBlock):
+            idx = next((i for i, a in enumerate(cb.args) if isinstance(a, nodes.Name) and a.name == e.name), None)
+            if idx is None:
+                continue
+            callee = ti.macros.get(cb.call.node.name) if isinstance(cb.call, nodes.Call) and isinstance(cb.call.node, nodes.Name) else None
+            if callee is None or callee is m:
+                return None
+            body = _bind(callee, cb.call)
+            handed = [c for n in body for c in n.find_all(nodes.Call) if isinstance(c.node, nodes.Name) and c.node.name == "caller"]
+            if not handed or any(c.kwargs or c.dyn_args or c.dyn_kwargs or idx >= len(c.args) for c in handed) or \
+                    len({expr_text(c.args[idx]) for c in handed}) != 1:
+                return None
+            return _collected_sel(ti, callee, body, handed[0].args[idx], defs, depth + 1)
+    return None
+
+
+def _collected_sel(ti: Any, callee: nodes.Macro, body: list[nodes.Node], e: Any, defs: dict[str, list[nodes.Node]], depth: int) -> _Sel | None:
+    direct = _member_sel(ti, callee, e, defs, depth)
+    if direct is not None:
+        return direct
+    if not (isinstance(e, nodes.Getattr) and isinstance(e.node, nodes.Name)):
+        return None
+    ns, attr = e.node.name, e.attr
+    inits = [a.node for n in body for a in [n, *n.find_all(nodes.Assign)] if isinstance(a, nodes.Assign) and isinstance(a.target, nodes.Name) and a.target.name == ns]
+    if len(inits) != 1 or not (isinstance(inits[0], nodes.Call) and expr_text(inits[0].node) == "namespace"):
+        return None
+    start = [k.value for k in inits[0].kwargs if k.key == attr]
+    if len(start) != 1 or not (isinstance(start[0], (nodes.List, nodes.Tuple)) and not start[0].items):
+        return None
+    stores = [st for st in _stmt_frags(body, (nodes.Assign,)) if isinstance(st.node.target, nodes.NSRef) and (st.node.target.name, st.node.target.attr) == (ns, attr)]
+    loops = [f for n in body for f in [n, *n.find_all(nodes.For)] if isinstance(f, nodes.For)]
+    around = {id(f): f for st in stores for f in loops if any(x is st.node for x in f.find_all(nodes.Assign))}
+    if not stores or len(around) != 1 or any(len(st.loops) != 1 for st in stores):
+        return None       # filled in more than one pass (a partition put together again reorders), or inside nested loops
+    f = next(iter(around.values()))
+    src = _member_sel(ti, callee, f.iter, defs, depth)
+    disorder = ""
+    if src is None and "inner_properties" in expr_text(_inline(f.iter, defs)):
+        src, disorder = _WHOLE, f"collected in a loop over `{expr_text(_inline(f.iter, defs))}`, not over the members as they are listed"
+    roles = _loop_roles(f, src, defs) if src is not None and src.whole else None
+    if roles is None:
+        return None
+    disorder = disorder or src.disorder
+    member, aliases = roles
+    shapes = set()
+    for st in stores:
+        v = st.node.node
+        own = f"{ns}.{attr}"
+        if isinstance(v, nodes.Add) and expr_text(v.right) == own and isinstance(v.left, nodes.List) and len(v.left.items) == 1:
+            v, disorder = nodes.Add(v.right, v.left), disorder or "every element is put in front of the ones collected before"
+        if not (isinstance(v, nodes.Add) and expr_text(v.left) == own and isinstance(v.right, nodes.List) and len(v.right.items) == 1):
+            return None       # (anything but one element put at an end)
+        x = v.right.items[0]
+        shapes.add(tuple("member" if expr_text(y) == member else "template" if expr_text(y) in aliases else "?"
+                         for y in (x.items if isinstance(x, nodes.Tuple) else [x])))
+    shape = next(iter(shapes))
+    if len(shapes) != 1 or shape.count("member") != 1:
+        return None
+    return _Sel(tuple((st.guards, st.guard_nodes) for st in stores), shape, member, frozenset(aliases), disorder)
+
+
+def _loop_roles(f: nodes.For, sel: _Sel, defs: dict[str, list[nodes.Node]]) -> tuple[str, set[str]] | None:
+    """(the variable that is the member, the names that are the template imported for it) inside a loop over the sequence `sel`: the
+    template is imported in the loop (`{% import "property_templates/" + <member>.template as ... %}`) or comes with the member"""
+    t = f.target
+    names = [t] if sel.shape == ("member",) else list(t.items) if isinstance(t, nodes.Tuple) and len(t.items) == len(sel.shape) else []
+    if len(names) != len(sel.shape) or not all(isinstance(x, nodes.Name) for x in names):
+        return None
+    member = names[sel.shape.index("member")].name
+    aliases = {a for a, x in _inner_aliases(f, defs).items() if x == member} | {x.name for x, r in zip(names, sel.shape) if r == "template"}
+    return member, aliases
+
+
+def _sel_is(sel: _Sel, atom: str, value: bool) -> bool:
+    """the selection takes in exactly the members for which `atom` (the member written <m>, its template <tpl>; `x["a"]` is `x.a`) has
+    the truth value `value`, whatever else is tested"""
+    def natom(t: str) -> str:
+        t = re.sub(r"\[(['\"])(\w+)\1\]", r".\2", t)
+        for a in sorted(sel.aliases, key=len, reverse=True):
+            t = re.sub(rf"(?<![\w.]){re.escape(a)}(?![\w(])", "<tpl>", t)
+        if sel.member:
+            t = t.replace(sel.member, "<m>")
+        return _strip_parens(t)
+
+    raw = [(gn, [a for a in tplq.atoms(gn)]) for _, gnodes in sel.alts for gn in gnodes]
+    names = sorted({natom(a) for _, ats in raw for a in ats})
+    if atom not in names:
+        return False
+    for env in tplq.assignments(names):
+        taken = any(all(tplq.evaluate(gn, {a: env[natom(a)] for a in tplq.atoms(gn)}) == pol for gn, (_, pol) in zip(gnodes, guards))
+                    for guards, gnodes in sel.alts)
+        if taken != (env[atom] == value):
+            return False
+    return True
 
 
 # ---- R02.8 ---------------------------------------------------------------------------------------------------------------------
@@ -1848,12 +2089,19 @@ def _delegated(ti: Any, macro: str) -> set[str]:
     defs = _set_defs(ti)
     got: set[str] = set()
     for m in _macro_region(ti, macro):
-        al = _inner_aliases(m, defs)
+        # {name of the template: the inner property it was imported for}: imported here for property.inner_propert..., or handed on
+        # together with the member in a sequence made from the members (sa `_member_sel`)
+        al = {a: x for a, x in _inner_aliases(m, defs).items() if x.startswith("property.inner_propert")}
+        for f in m.find_all(nodes.For):
+            sel = _member_sel(ti, m, f.iter, defs)
+            roles = _loop_roles(f, sel, defs) if sel is not None else None
+            for a in (roles[1] if roles else ()):
+                al.setdefault(a, roles[0])
         for c in m.find_all(nodes.Call):
             if isinstance(c.node, nodes.Getattr) and isinstance(c.node.node, nodes.Name) and c.node.node.name in al:
                 x = al[c.node.node.name]
                 first = c.args[0] if c.args else next((k.value for k in c.kwargs if k.key == "property"), None)
-                if first is not None and expr_text(_inline(first, defs)) == x and x.startswith("property.inner_propert"):
+                if first is not None and expr_text(_inline(first, defs)) == x:
                     got.add(c.node.attr)
     return got
 
